@@ -25,6 +25,7 @@ import (
 	"github.com/godaddy/asherah/go/appencryption"
 	"github.com/godaddy/asherah/go/appencryption/pkg/crypto/aead"
 	"github.com/godaddy/asherah/go/appencryption/pkg/kms"
+	sdklog "github.com/godaddy/asherah/go/appencryption/pkg/log"
 	"github.com/godaddy/asherah/go/appencryption/pkg/persistence"
 	pb "github.com/godaddy/asherah/server/go/api"
 	"github.com/godaddy/asherah/server/go/pkg/server"
@@ -107,6 +108,9 @@ func (c *convo) build(kind int) (*pb.SessionRequest, []byte) {
 		return getSession(""), nil
 	case kEncrypt:
 		pl := []byte(fmt.Sprintf("payload-%s-%d", c.part, c.n))
+		if c.n%3 == 0 {
+			pl = []byte{} // an empty payload is a payload
+		}
 		return encryptReq(pl), pl
 	case kDecGenuine:
 		if c.lastRec != nil {
@@ -237,6 +241,18 @@ func (f *fakeStream) Context() context.Context         { return f.ctx }
 func (f *fakeStream) SendMsg(m any) error              { return nil }
 func (f *fakeStream) RecvMsg(m any) error              { return nil }
 
+// verboseLogger formats every debug statement of the SDK (and throws the text away), as a real logger would.
+type verboseLogger struct{}
+
+func (verboseLogger) Debugf(f string, a ...interface{}) { _ = fmt.Sprintf(f, a...) }
+
+type quietLogger struct{}
+
+func (quietLogger) Debugf(string, ...interface{}) {}
+
+// verboseHung is set when the verbose variant was given up because requests stay unanswered.
+var verboseHung bool
+
 func newApp() *server.AppEncryption { return newAppOpt(false) }
 
 // newAppOpt builds the service exactly as the sidecar's main does, from an Options value; with sess the shared
@@ -361,19 +377,59 @@ func makeMaterialPart(app *server.AppEncryption, own string) *material {
 
 func TestC19(t *testing.T) {
 	r := ev.Start("C19", "exploration")
-	r.Rule("(1) every request sequence up to length L over {get-session valid / empty id, encrypt, decrypt genuine / foreign-partition / bit-flipped / structurally empty record (4 shapes), empty request}, each followed by end-of-stream, is played through AppEncryption.Session (built by NewAppEncryption from an Options value: memory metastore + static KMS, once without and once with the shared session cache of 2 sessions, and once with neither --expire-after nor --check-interval given) on an in-process stream; a reference protocol automaton {uninitialised, initialised, rejected-get-session} gives the expected response class per request, responses are counted per request, panics are recovered per sequence. (2) seeded sequences of length 40 on 8 concurrent streams per round, spread over three partitions (so that cached sessions are shared between streams and evicted while in use), over real gRPC (bufconn) under the race detector, for both server variants, same automaton per stream. (3) 8 lock-step streams per round against a server whose SDK caches nothing while the metastore alternates between healthy and failing (all reads / only system-key reads / only intermediate-key reads, per round) with a different error text every time: each request gets exactly one response (the right answer or an error response). (4) a stream whose k-th Send fails while another stream of the same partition is open, followed by evictions: the healthy stream keeps working. (5) a sidecar that outlives --expire-after, in virtual time: a long-lived stream encrypts, idles past the key lifetime, rotates, and old and new records are requested through the same stream and through new streams of the same and another partition. Distinct+non-trivial: distinct sequences that reached an initialised session.")
+	r.Rule("(1) every request sequence up to length L over {get-session valid / empty id, encrypt, decrypt genuine / foreign-partition / bit-flipped / structurally empty record (4 shapes), empty request}, each followed by end-of-stream, is played through AppEncryption.Session (built by NewAppEncryption from an Options value: memory metastore + static KMS, once without and once with the shared session cache of 2 sessions, once with neither --expire-after nor --check-interval given, and once with the SDK's debug logging switched on as --verbose does) on an in-process stream; a reference protocol automaton {uninitialised, initialised, rejected-get-session} gives the expected response class per request, responses are counted per request, panics are recovered per sequence. (2) seeded sequences of length 40 on 8 concurrent streams per round, spread over three partitions (so that cached sessions are shared between streams and evicted while in use), over real gRPC (bufconn) under the race detector, for both server variants, same automaton per stream. (3) 8 lock-step streams per round against a server whose SDK caches nothing while the metastore alternates between healthy and failing (all reads / only system-key reads / only intermediate-key reads, per round) with a different error text every time: each request gets exactly one response (the right answer or an error response). (4) a stream whose k-th Send fails while another stream of the same partition is open, followed by evictions: the healthy stream keeps working. (5) a sidecar that outlives --expire-after, in virtual time: a long-lived stream encrypts, idles past the key lifetime, rotates, and old and new records are requested through the same stream and through new streams of the same and another partition. Distinct+non-trivial: distinct sequences that reached an initialised session.")
 	r.Assume("the server binary's main() is not exercised, only pkg/server; a handler panic under a real grpc.Server kills the process (detected by the check script as a crash)")
 	n := 0
-	Ls := []int{ev.Pick(4, 5), ev.Pick(3, 4), ev.Pick(3, 4)}
-	for vi, sess := range []bool{false, true, false} {
+	Ls := []int{ev.Pick(4, 5), ev.Pick(3, 4), ev.Pick(3, 4), ev.Pick(2, 3)}
+	for vi, sess := range []bool{false, true, false, false} {
 		app := newAppOpt(sess)
 		if vi == 2 {
 			app = newAppUnsetDurations()
 		}
+		if vi == 3 {
+			// the sidecar's --verbose: the SDK's debug logging is on and every debug statement is formatted
+			sdklog.SetLogger(verboseLogger{})
+		}
 		var mat *material
 		if pv := func() (pv any) {
-			defer func() { pv = recover() }()
-			mat = makeMaterial(app)
+			defer func() {
+				if p := recover(); p != nil {
+					pv = p
+				}
+			}()
+			if vi != 3 {
+				mat = makeMaterial(app)
+				return nil
+			}
+			// (see below: with debug formatting on a request may never be answered)
+			for attempt := 0; attempt < 2 && mat == nil; attempt++ {
+				a := app
+				if attempt == 1 {
+					a = newAppOpt(false)
+				}
+				ch := make(chan any, 1)
+				go func() {
+					defer func() {
+						if p := recover(); p != nil {
+							ch <- p
+						}
+					}()
+					ch <- makeMaterial(a)
+				}()
+				select {
+				case x := <-ch:
+					if m, ok := x.(*material); ok {
+						mat, app = m, a
+					} else {
+						return x
+					}
+				case <-time.After(30 * time.Second):
+				}
+			}
+			if mat == nil {
+				verboseHung = true
+				return "debug logging on: get-session + encrypt on a fresh sidecar never received a response (no answer within 30 s on two services; the handler is stuck)"
+			}
 			return nil
 		}(); pv != nil {
 			r.Violation("c19-protocol:encrypt", fmt.Sprintf("server variant %d (0 plain, 1 session cache, 2 durations unset): a fresh sidecar did not answer get-session + encrypt with a record: %v", vi, pv), map[string]any{"engine": "grpcsrv/in-process", "variant": vi})
@@ -386,7 +442,42 @@ func TestC19(t *testing.T) {
 			if len(seq) > 0 {
 				n++
 				journal(fmt.Sprintf("C19 sess=%v seq %v", sess, seq))
-				sig, detail := runSeq(app, mat, seq, n)
+				var sig, detail string
+				if vi == 3 {
+					// with formatting on, a debug statement that needs a lock its caller holds never returns: the request
+					// gets no response. A sequence takes milliseconds; one that is not through after 30 s is tried once
+					// more on a fresh service, and a second silence is the verdict for the whole variant.
+					for attempt := 0; attempt < 2 && !verboseHung; attempt++ {
+						a, m := app, mat
+						if attempt == 1 {
+							a = newAppOpt(false)
+							ok := make(chan *material, 1)
+							go func() { defer func() { _ = recover() }(); ok <- makeMaterial(a) }()
+							select {
+							case m = <-ok:
+							case <-time.After(30 * time.Second):
+								verboseHung = true
+								sig, detail = "c19-response-count", fmt.Sprintf("debug logging on: a fresh sidecar never answered get-session + encrypt (sequence %v was silent before)", seq)
+								continue
+							}
+						}
+						type res struct{ sig, detail string }
+						ch := make(chan res, 1)
+						go func() { s, d := runSeq(a, m, seq, n); ch <- res{s, d} }()
+						select {
+						case x := <-ch:
+							sig, detail = x.sig, x.detail
+							attempt = 2
+						case <-time.After(30 * time.Second):
+							if attempt == 1 {
+								verboseHung = true
+								sig, detail = "c19-response-count", fmt.Sprintf("debug logging on: sequence %v: a request never received its response (no answer within 30 s on two services; the handler is stuck)", seq)
+							}
+						}
+					}
+				} else {
+					sig, detail = runSeq(app, mat, seq, n)
+				}
 				r.Eval(1)
 				for _, k := range seq {
 					if k == kGetValid {
@@ -405,7 +496,7 @@ func TestC19(t *testing.T) {
 					r.Sample(map[string]any{"session_caching": sess, "sequence": names})
 				}
 			}
-			if len(seq) == L {
+			if len(seq) == L || verboseHung {
 				return
 			}
 			for k := 0; k < nKinds; k++ {
@@ -415,6 +506,9 @@ func TestC19(t *testing.T) {
 			}
 		}
 		rec()
+		if vi == 3 {
+			sdklog.SetLogger(quietLogger{})
+		}
 	}
 	r.Count("in_process_sequences", int64(n))
 	r.Exhaustive(true)
